@@ -438,10 +438,13 @@ static void do_call(hp_line *l)
 	printf(",%zu\n", pre.avail_out);
 }
 
-int main(void)
+int main(int argc, char **argv)
 {
+	(void)argv;
+	// with an argument: flush after every answer (interactive sessions driven by tools/props/c11.py)
+	const bool interactive = argc > 1;
 	hp_line l = {0};
-	while (hp_next(&l)) {
+	while ((interactive ? fflush(stdout) : 0), hp_next(&l)) {
 		const char *op = l.tok[0];
 		if (!strcmp(op, "call")) {
 			do_call(&l);
